@@ -32,7 +32,7 @@ META = {
         "asyncio semantics as implemented by BaseEventLoop; timers fire exactly at their deadline on the virtual clock; untimed events happen at timer deadlines or at the harness clock ticks (0.15 s steps) of the tick scenarios",
         "shutdown begins at the stop request, at the N-th message taken, or when a finite stream ends",
     ],
-    "required_counters": ["scenarios", "terminal_states"],
+    "required_counters": ["wiring_cases", "scenarios", "terminal_states"],
     "bounds": {
         "quick": {"A": [None, 1, 2], "P": [0, 1], "N": [None, 1, 2], "W": [None, 0.1, 0.3, 0.5], "n_max": 3, "L1": "n<=2"},
         "thorough": {"A": [None, 1, 2, 3], "P": [0, 1, 2], "N": [None, 1, 2, 3], "W": [None, 0.1, 0.3, 0.5], "n_max": 4, "L1": "n<=3", "L2": "n<=2"},
@@ -208,6 +208,10 @@ def scenarios(tier: str) -> List[Dict[str, Any]]:
 
 
 def shards(tier: str, seed: int) -> List[Any]:
+    return _shards(tier, seed) + [[{"wiring": "C05"}]]
+
+
+def _shards(tier: str, seed: int) -> List[Any]:
     scs = scenarios(tier)
     if tier == "thorough":
         mark_stateless(scs, 6, 8)
@@ -218,6 +222,12 @@ def shards(tier: str, seed: int) -> List[Any]:
 
 
 def run_shard(shard: List[Dict[str, Any]]) -> Dict[str, Any]:
+    if shard and shard[0].get("wiring"):
+        from mc.cli_wiring import check_worker_wiring
+
+        acc = Acc()
+        check_worker_wiring("C05", acc)
+        return acc.as_dict()
     return run_scenarios("C05", shard, C05World).as_dict()
 
 
